@@ -134,6 +134,7 @@ fn cfg_for(files: Vec<String>, seed: u64, c05: bool, c06: bool) -> HCfg {
         check_c06: c06,
         check_c10: false,
         check_ledger: true,
+            check_presence: false,
     }
 }
 
